@@ -5,7 +5,7 @@
 use super::*;
 use super::super::permission::verif_kani::{any_permission, any_set};
 
-use crate::config::verif_kani::fixed_random_state;
+use crate::config::verif_kani::{const_finish, fixed_random_state, noop_write};
 
 fn handle(s: &'static str) -> MyHandle {
     MyHandle::new(s.into())
@@ -58,7 +58,9 @@ fn c13c_builtin_roles() {
 #[kani::proof]
 #[kani::unwind(9)]
 #[kani::stub(std::hash::RandomState::new, fixed_random_state)]
-fn c13b_role_per_ca_precedence() {
+#[kani::stub(<std::hash::DefaultHasher as std::hash::Hasher>::finish, const_finish)]
+#[kani::stub(<std::hash::DefaultHasher as std::hash::Hasher>::write, noop_write)]
+fn x13b_role_per_ca_precedence() {
     let s = any_set();
     let p = any_permission();
     let a = handle("a");
